@@ -37,6 +37,9 @@ pub struct Trace {
   pub recs: Vec<Rec>,
   /// script index of the Unsub/DropGuard step, if any was executed
   pub unsub_at: Option<usize>,
+  /// scheduled tasks not yet retired / timers pending at the moment of the unsubscription
+  pub live_at_unsub: usize,
+  pub timers_at_unsub: usize,
   /// (step index, is_closed()) sampled after subscription (index usize::MAX) and after every step
   pub closed: Vec<(usize, bool)>,
   pub counters: Counters,
